@@ -129,13 +129,16 @@ public:
     }
 
     void resize(size_t size, const T &value) {
+        // value may refer to an element of this array: realloc below would invalidate it
+        const T fill(value);
+
         destroy(size, m_size);
 
         m_array = static_cast<T*>(realloc(m_array, size * sizeof(T)));
 
         if (size > m_size) {
             for (size_t i = m_size; i < size; ++i) {
-                new (&m_array[i]) T(value);
+                new (&m_array[i]) T(fill);
             }
         }
 
